@@ -38,10 +38,11 @@ var modes = []string{"M1", "M2"}
 // progInfo is what the failure-free runs tell about a program.
 type progInfo struct {
 	name     string
-	expected []string       // sorted rows (local executor; cluster runs must agree)
-	alphabet []string       // union of labelled RPC histories, first-seen order
-	scanOnly map[string]bool // labels that occur only while the result is scanned
-	readLen  map[string]int
+	expected []string         // sorted rows (local executor; cluster runs must agree)
+	alphabet []string         // union of labelled RPC histories, first-seen order
+	scanOnly map[string]bool  // labels that occur only while the result is scanned
+	readLen  map[string]int   // by label without occurrence
+	bounds   map[string][]int // by label without occurrence: batch ends inside the reply
 	hosts    []string
 }
 
@@ -71,6 +72,7 @@ type tally struct {
 	evaluations int
 	children    int
 	notFired    int
+	spurious    int             // fault runs with additional, not enumerated machine losses
 	firedKeys   map[string]bool // program|label|variant
 	firedFine   map[string]bool // program|mode|label|variant|victim
 	pairFired   map[string]bool
@@ -109,48 +111,83 @@ func main() {
 		}
 	}
 	infos := map[string]*progInfo{}
-	var freeCases []fcase
 	id := 0
 	for _, p := range progs {
-		infos[p.name] = &progInfo{name: p.name, expected: localRows(p), scanOnly: map[string]bool{}, readLen: map[string]int{}}
-		for k := 0; k < nFreeRuns; k++ {
-			freeCases = append(freeCases, fcase{ID: id, Prog: p.name, Mode: "M1"})
-			id++
+		infos[p.name] = &progInfo{name: p.name, expected: localRows(p)}
+	}
+	// A run without injected faults contributes to the alphabet only if no
+	// machine was lost in it (under load a keepalive can time out; the driver's
+	// view of its machines tells). Up to 4 rounds are made to collect nFreeRuns
+	// such runs.
+	cands := map[string][]cresult{}
+	cleanRuns := func(name string) []cresult { return cands[name] }
+	failed := map[string]bool{}
+	nFree := 0
+	for round := 0; round < 4; round++ {
+		var freeCases []fcase
+		for _, p := range progs {
+			for k := len(cleanRuns(p.name)); k < nFreeRuns && !failed[p.name]; k++ {
+				freeCases = append(freeCases, fcase{ID: id, Prog: p.name, Mode: "M1"})
+				id++
+			}
+		}
+		if len(freeCases) == 0 {
+			break
+		}
+		// two runs per child so that the union covers several processes
+		freeRes := runCases(freeCases, 2)
+		for _, c := range freeCases {
+			res := freeRes[c.ID]
+			inf := infos[c.Prog]
+			tl.evaluations++
+			nFree++
+			if res.Hung || res.Crash != "" || res.Out.RunErr != "" || res.Out.ScanErr != "" || !equalRows(res.Out.Rows, inf.expected) {
+				r.Violate("C02/"+c.Prog+"/no-fault/"+classify(res, inf.expected, "M1"),
+					"a distributed run without injected faults does not deliver the rows of the local executor",
+					map[string]interface{}{"program": c.Prog, "expected": inf.expected, "got": res.Out, "hung": res.Hung, "crash": res.Crash, "history": res.History, "goroutine_dump": res.Dump})
+				failed[c.Prog] = true
+				continue
+			}
+			tl.outcomes["no-fault/ok"]++
+			if len(res.Spurious) == 0 {
+				cands[c.Prog] = append(cands[c.Prog], res)
+			}
 		}
 	}
-	// two failure-free runs per child so that the union covers several processes
-	freeRes := runCases(freeCases, 2)
-	for _, c := range freeCases {
-		res := freeRes[c.ID]
-		inf := infos[c.Prog]
-		tl.evaluations++
-		if res.Hung || res.Crash != "" || res.Out.RunErr != "" || res.Out.ScanErr != "" || !equalRows(res.Out.Rows, inf.expected) {
-			r.Violate("C02/"+c.Prog+"/no-fault/"+classify(res, inf.expected, "M1"),
-				"a failure-free distributed run does not deliver the rows of the local executor",
-				map[string]interface{}{"program": c.Prog, "expected": inf.expected, "got": res.Out, "hung": res.Hung, "crash": res.Crash})
-			continue
+	nClean := 0
+	for _, p := range progs {
+		inf := infos[p.name]
+		inf.scanOnly, inf.readLen, inf.bounds = map[string]bool{}, map[string]int{}, map[string][]int{}
+		runs := cleanRuns(p.name)
+		nClean += len(runs)
+		if len(runs) < nFreeRuns {
+			r.NotExhaustive(fmt.Sprintf("%s: only %d of %d runs without injected faults were free of spurious machine loss", p.name, len(runs), nFreeRuns))
 		}
-		seen := map[string]bool{}
-		for i, l := range res.History {
-			if !contains(inf.alphabet, l) {
-				inf.alphabet = append(inf.alphabet, l)
-				inf.scanOnly[l] = true
+		for _, res := range runs {
+			for i, l := range res.History {
+				if !contains(inf.alphabet, l) {
+					inf.alphabet = append(inf.alphabet, l)
+					inf.scanOnly[l] = true
+				}
+				if i < res.ScanStart {
+					inf.scanOnly[l] = false
+				}
 			}
-			if i < res.ScanStart {
-				inf.scanOnly[l] = false
+			for l, n := range res.ReadLen {
+				if k := stripOcc(l); n > inf.readLen[k] {
+					inf.readLen[k] = n
+					inf.bounds[k] = res.ReadBounds[l]
+				}
 			}
-			seen[l] = true
-		}
-		for l, n := range res.ReadLen {
-			if n > inf.readLen[l] {
-				inf.readLen[l] = n
-			}
-		}
-		for _, h := range res.Hosts {
-			if !contains(inf.hosts, h) {
-				inf.hosts = append(inf.hosts, h)
+			for _, h := range res.Hosts {
+				if !contains(inf.hosts, h) {
+					inf.hosts = append(inf.hosts, h)
+				}
 			}
 		}
+	}
+	if nFree > nClean {
+		r.Note("%d of %d runs without injected faults lost a machine spuriously (keepalive timeout under load); they were checked against the oracle but not used for the label alphabet", nFree-nClean, nFree)
 	}
 	for _, inf := range infos {
 		sort.Strings(inf.hosts)
@@ -167,7 +204,7 @@ func main() {
 			inf := infos[p.name]
 			fmt.Printf("== %s: %d labels, hosts %v, rows %v\n", p.name, len(inf.alphabet), inf.hosts, inf.expected)
 			for _, l := range inf.alphabet {
-				fmt.Printf("   %-60s scan=%v len=%d\n", l, inf.scanOnly[l], inf.readLen[l])
+				fmt.Printf("   %-60s scan=%v len=%d bounds=%v\n", l, inf.scanOnly[l], inf.readLen[stripOcc(l)], inf.bounds[stripOcc(l)])
 			}
 		}
 	}
@@ -245,21 +282,22 @@ func main() {
 		sizes[p.name] = map[string]interface{}{"labels": len(inf.alphabet), "machines": len(inf.hosts), "rows": len(inf.expected), "single_cases": progSizes[p.name]}
 	}
 	r.Finish(ev.Coverage{
-		"evaluations":           tl.evaluations,
-		"distinct_nontrivial":   len(tl.firedKeys) + len(tl.pairFired),
-		"fired_single_distinct": len(tl.firedKeys),
-		"fired_single_fine":     len(tl.firedFine),
-		"fired_pairs_distinct":  len(tl.pairFired),
-		"single_cases":          len(singles),
-		"pair_cases":            pairCount,
-		"not_fired_runs":        tl.notFired,
-		"child_processes":       tl.children,
-		"fired_per_method":      tl.perMethod,
-		"distinct_outcomes":     len(tl.outcomes),
-		"outcomes":              tl.outcomes,
-		"programs":              sizes,
-		"slowest_run_ms":        tl.maxMs,
-		"rule":                  rule,
+		"evaluations":                         tl.evaluations,
+		"distinct_nontrivial":                 len(tl.firedKeys) + len(tl.pairFired),
+		"fired_single_distinct":               len(tl.firedKeys),
+		"fired_single_fine":                   len(tl.firedFine),
+		"fired_pairs_distinct":                len(tl.pairFired),
+		"single_cases":                        len(singles),
+		"pair_cases":                          pairCount,
+		"not_fired_runs":                      tl.notFired,
+		"fault_runs_with_spurious_extra_loss": tl.spurious,
+		"child_processes":                     tl.children,
+		"fired_per_method":                    tl.perMethod,
+		"distinct_outcomes":                   len(tl.outcomes),
+		"outcomes":                            tl.outcomes,
+		"programs":                            sizes,
+		"slowest_run_ms":                      tl.maxMs,
+		"rule":                                rule,
 	})
 }
 
@@ -292,13 +330,31 @@ func faultKey(f vsys.Fault) string {
 	return f.Label + "/" + f.Variant + "/" + v
 }
 
-func readVariants(n int) []string {
+// readVariants are the cut points inside a Worker.Read reply of n bytes:
+// byte 0, the middle, the last byte, and the ends of encoded batches strictly
+// inside the reply (all of them if all is set, else the first, the median and
+// the last).
+func readVariants(n int, bounds []int, all bool) []string {
 	vs := []string{"mid:0"}
-	for _, k := range []int{n / 2, n - 1} {
+	add := func(k int) {
 		v := fmt.Sprintf("mid:%d", k)
-		if k > 0 && !contains(vs, v) {
+		if k > 0 && k < n && !contains(vs, v) {
 			vs = append(vs, v)
 		}
+	}
+	add(n / 2)
+	add(n - 1)
+	var inner []int
+	for _, b := range bounds {
+		if b > 0 && b < n {
+			inner = append(inner, b)
+		}
+	}
+	if !all && len(inner) > 3 {
+		inner = []int{inner[0], inner[len(inner)/2], inner[len(inner)-1]}
+	}
+	for _, b := range inner {
+		add(b)
 	}
 	return vs
 }
@@ -309,15 +365,17 @@ func singlePoints(inf *progInfo) []vsys.Fault {
 	for _, l := range inf.alphabet {
 		vars := []string{"before", "after", "afterreply"}
 		if methodOf(l) == "Worker.Read" {
-			vars = append(vars, readVariants(inf.readLen[l])...)
+			vars = append(vars, readVariants(inf.readLen[stripOcc(l)], inf.bounds[stripOcc(l)], inf.scanOnly[l])...)
 		}
 		for _, v := range vars {
 			out = append(out, vsys.Fault{Label: l, Variant: v})
 		}
 		if methodOf(l) == "Worker.Run" {
-			for _, h := range inf.hosts {
+			// every other machine: "other:<k>" = the k-th machine (by name) other
+			// than the callee that is up when the call is made
+			for k := 0; k+1 < len(inf.hosts); k++ {
 				for _, v := range []string{"before", "after", "afterreply"} {
-					out = append(out, vsys.Fault{Label: l, Variant: v, Victim: h})
+					out = append(out, vsys.Fault{Label: l, Variant: v, Victim: fmt.Sprintf("other:%d", k)})
 				}
 			}
 		}
@@ -339,27 +397,19 @@ func secondPoints(res cresult, inf *progInfo) []vsys.Fault {
 	if len(res.FiredAt) == 0 || res.FiredAt[0] < 0 {
 		return nil
 	}
-	// reply lengths by label without occurrence (a recomputed partition has the same length)
-	lens := map[string]int{}
-	for l, n := range inf.readLen {
-		if n > lens[stripOcc(l)] {
-			lens[stripOcc(l)] = n
-		}
-	}
-	for l, n := range res.ReadLen {
-		if n > lens[stripOcc(l)] {
-			lens[stripOcc(l)] = n
-		}
-	}
+	// Only calls to live machines (killing a dead machine is a no-op), and of
+	// the calls with the same method and key only the first one after the fault
+	// (calls to a lost machine are retried dozens of times).
 	seen := map[string]bool{}
 	for _, l := range res.History[res.FiredAt[0]+1:] {
-		if seen[l] {
+		if seen[stripOcc(l)] || contains(res.DeadCall, l) {
 			continue
 		}
-		seen[l] = true
+		seen[stripOcc(l)] = true
 		vars := []string{"before", "after", "afterreply"}
 		if methodOf(l) == "Worker.Read" {
-			vars = append(vars, readVariants(lens[stripOcc(l)])...)
+			// a recomputed partition has the same length as in a failure-free run
+			vars = append(vars, readVariants(inf.readLen[stripOcc(l)], inf.bounds[stripOcc(l)], false)...)
 		}
 		for _, v := range vars {
 			out = append(out, vsys.Fault{Label: l, Variant: v})
